@@ -28,5 +28,7 @@ def run(repo: Repo, tier, rep: Report):
     def addp(rule, construct, key, msg, line=0):
         rep.finding(rule, construct, key, msg, line=line)
     check_purity(repo, addp, only={"to_directed", "to_undirected"})
+    from sa.query_check import check_enumeration_dependency
+    check_enumeration_dependency(repo, rep, common.enumeration_users(repo, ['to_directed', 'to_undirected']))
     rep.assume(*common.CTOR_ASSUMPTIONS)
     rep.assume("reciprocal branch: timelines of 1..2 intervals per direction (thorough: 2x2); nodes are comparable (u >= v)")
